@@ -224,3 +224,28 @@ class Facts:
             g[it.key] = out
         self._callgraph = g
         return g
+
+
+def fn_refs(F, pred):
+    """Every THIR reference (call or function value) to a function satisfying pred(fn dict):
+    list of (item, expr).  Function values (`.map(Product::new)`) are included, which MIR call
+    terminators do not show."""
+    out = []
+    for key, b in F.bodies.items():
+        th = b.get("thir")
+        if not th:
+            continue
+        it = F.items[key]
+        called = set()
+        for e in th["exprs"]:
+            if e["k"] == "Call" and "fn" in e:
+                called.add(e["fun"])
+        for i, e in enumerate(th["exprs"]):
+            fn = e.get("fn")
+            if not fn:
+                continue
+            if e["k"] == "ZstLiteral" and i in called:
+                continue  # the callee operand of a Call already counted
+            if pred(fn):
+                out.append((it, e))
+    return out
